@@ -35,7 +35,11 @@ CHECKS = {
                "commands, case-only nick changes, snapshot round-trips).", "DESIGN.md §6 C14"),
     "C12": irc("C12", "RecipientsEntitled and PrefixIsSender (IRCProps.tla) are evaluated by TLC on every transition of the bounded "
                "model and on every reply of every recorded real step against the pre/post state the real server reported; "
-               "recipient sets are the real InterestingFor maps, prefixes the real prefix bytes.", "DESIGN.md §6 C12"),
+               "recipient sets are the real InterestingFor maps, prefixes the real prefix bytes. HTTP level (checks/irc_http.py): "
+               "the same state-aware histories run through the real HTTP API of a complete single-node network (real raft, FSM, "
+               "output stream); TLC validates every applied entry with the same predicates and StreamIsEntitledReplies: what each "
+               "session's real long polls delivered (cancelled and resumed with lastseen) is exactly the messages addressed to it.",
+               "DESIGN.md §6 C12, §11.2"),
     "C13": irc("C13", "EffectNeedsPrivilege is stated on the state delta (gained/lost membership, mode/key/ban/op changes, topic, "
                "invitations, ended sessions, ban table, oper/server flags) and evaluated by TLC on every model transition and on "
                "every recorded real step; captcha tokens are minted by the harness in the classes valid/expired/replayed/bad mac.",
